@@ -37,7 +37,10 @@ RULE = (
     "disciplines whose coupling outputs have unequal sizes and the MDA needed >=2 iterations; distinct = structural "
     "hash of (system, inputs, configuration).  A second drive runs, on cheap linear rings (2-4 disciplines), MDAJacobi "
     "and MDAGaussSeidel with every acceleration method x over-relaxation factor in {0.6,0.8,1,1.2}, a drawn scaling: per case the two "
-    "combinations Jacobi + MinimumPolynomial at 0.6 and 0.8 plus both classes x all accelerations at one drawn factor, same oracles (non-trivial = >= 2 iterations)."
+    "combinations Jacobi + MinimumPolynomial at 0.6 and 0.8 plus both classes x all accelerations at one drawn factor, same oracles (non-trivial = >= 2 iterations), plus one hand-off sequence (plain Jacobi converged to 100 x tolerance, then plain "
+    "Jacobi / Gauss-Seidel with just the iteration budget needed from there by the contraction estimate).  A third drive runs "
+    "MDAJacobi with three accelerations and a hand-off sequence on a ring of two followed by a chain of 2-3 weakly coupled "
+    "disciplines in a drawn list order."
 )
 ASSUMPTIONS = [
     "well-posed = the one-sweep map of the system is a max-norm contraction with factor q <= 0.3 (by construction), "
@@ -98,7 +101,7 @@ def _solver_cfg(draw, names=SOLVERS):
 
 @st.composite
 def configurations(draw):
-    kind = draw(st.sampled_from(["solver", "solver", "solver", "chain", "chain", "gsnewton", "sequential"]))
+    kind = draw(st.sampled_from(["solver", "solver", "solver", "chain", "chain", "gsnewton", "gsnewton", "sequential"]))
     cfg = {
         "kind": kind,
         "tol": draw(st.sampled_from(TOLERANCES)),
@@ -125,7 +128,7 @@ def configurations(draw):
         cfg["nr"] = draw(_solver_cfg(["MDANewtonRaphson"]))
         cfg["budget"] = draw(st.sampled_from([10, BUDGET]))
         # the settings of the two stages given as dictionaries or as Pydantic settings models
-        cfg["settings_as"] = draw(st.sampled_from(["dict", "model"]))
+        cfg["settings_as"] = draw(st.sampled_from(["dict", "model", "model"]))
         # "simplified" discipline Jacobians (coupling partials halved): the Newton stage converges linearly
         cfg["inexact_jac"] = draw(st.booleans())
         if cfg["inexact_jac"]:
@@ -148,12 +151,16 @@ def configurations(draw):
                           {**cfg["seq"][1], **plain, "cls": draw(st.sampled_from(["MDAJacobi", "MDAGaussSeidel"]))}]
             cfg["first_tol"] = None
             cfg["scaling"] = "no_scaling"  # the hand-off point is then known: ||residual||_2 <= 100 tol
+            # with warm_start every sub-MDA restarts from ITS OWN previous solution, not from its predecessor's result:
+            # the budget estimate below would not apply to a second execution
+            cfg["warm"] = False
     return cfg
 
 
 @st.composite
 def cases(draw):
-    system = draw(coupled_systems(two_cycles=draw(st.integers(0, 5)) == 0))
+    shape = draw(st.sampled_from(["any", "any", "any", "any", "two_cycles", "tail"]))
+    system = draw(coupled_systems(two_cycles=shape == "two_cycles", tail=shape == "tail"))
     values = draw(input_values(system))
     delta = {v["name"]: [draw(st.sampled_from([-0.5, 0.0, 0.25, 1.0])) for _ in range(v["size"])] for v in system["x"]}
     configs = draw(st.lists(configurations(), min_size=1, max_size=3))
@@ -742,8 +749,30 @@ def acceleration_cases(draw):
     omega = draw(st.sampled_from(ACC_OMEGAS))  # per case: both classes x every acceleration at one over-relaxation factor
     drawn = [k for k, c in enumerate(ACC_COMBINATIONS) if c[2] == omega and tuple(c) not in ACC_ALWAYS]
     return {"system": system, "values": draw(input_values(system)), "tol": draw(st.sampled_from([1e-6, 1e-10])),
-            "scaling": draw(st.sampled_from(SCALINGS)), "start": draw(st.sampled_from(["grid", "grid", "near"])),
+            "scaling": draw(st.sampled_from(SCALINGS + ["initial_subresidual_norm"] * 8)),
+            # "consistent": the start value of the output of one discipline is what this discipline computes from the
+            # other start values: its initial sub-residual is exactly 0 in a Jacobi sweep
+            "start": draw(st.sampled_from(["grid", "grid", "near", "consistent", "consistent"])), "which": draw(st.integers(0, 3)),
             "combinations": [list(c) for c in ACC_ALWAYS] + [list(ACC_COMBINATIONS[k]) for k in drawn]}
+
+
+def _plain(cls: str, acc: str = "NoTransformation", omega: float = 1.0) -> dict:
+    return {"cls": cls, "acc": acc, "omega": omega, "nr_solver": "DEFAULT", "nr_matrix": "matrix", "qn_method": "hybr", "qn_grad": False}
+
+
+def run_handoff(ctx, model, defaults, x, sol, e0, tol, last_cls, order=None):
+    """MDASequential([plain Jacobi to 100 tol, plain Jacobi / Gauss-Seidel with the budget needed from there]); same oracles."""
+    first_tol, last = handoff_budgets(model, tol)
+    cfg = {"kind": "sequential", "tol": tol, "scaling": "no_scaling", "warm": False, "twice": False, "perm": [0, 1, 2, 3, 4],
+           "budget": BUDGET, "seq": [_plain("MDAJacobi"), _plain(last_cls)], "first_budget": BUDGET, "first_tol": first_tol,
+           "last_budget": last, "handoff": True}
+    order = list(range(len(model.outputs_of))) if order is None else order
+    if is_gauss_seidel_with_stale_weak_outputs(cfg, model, order) and ctx.known("gauss_seidel_stale_weakly_coupled_outputs"):
+        return None
+    discs = build_disciplines(model, defaults, "SimpleGrammar", reject_non_finite=True)
+    mda = build_mda(cfg, [discs[i] for i in order])
+    ctx.cls("structured_handoff:" + last_cls)
+    return execute_and_check(ctx, mda, model, cfg, x, sol, e0, f"hand-off MDAJacobi+{last_cls}")
 
 
 def case_acceleration(p, ctx):
@@ -759,6 +788,12 @@ def case_acceleration(p, ctx):
             for n in model.out_names:
                 values[n] = np.round(64.0 * sol[n]) / 64.0 + 0.0
                 defaults[n] = values[n].tolist()
+        elif p.get("start") == "consistent":
+            i = p.get("which", 0) % len(model.outputs_of)
+            for n, v in model.run(i, values).items():
+                values[n] = v + 0.0
+                defaults[n] = v.tolist()
+            ctx.cls("acc_drive_start_consistent")
         e0 = max((float(np.max(np.abs(values[n] - sol[n]))) for n in model.couplings()), default=0.0)
         results = []
         for cls, acc, omega in p["combinations"]:
@@ -778,6 +813,9 @@ def case_acceleration(p, ctx):
             results.append((tag, res[0], res[1]))
             if n_it >= 2 and len(model.sizes) > 0:
                 ctx.nontriv(("acc", p["system"], p["values"], p["tol"], tag))
+        res = run_handoff(ctx, model, defaults, x, sol, e0, p["tol"], "MDAJacobi" if p.get("which", 0) % 2 == 0 else "MDAGaussSeidel")
+        if res is not None:
+            results.append(("hand-off sequence", res[0], res[1]))
         for a in range(len(results)):
             for b in range(a + 1, len(results)):
                 diff = max((float(np.max(np.abs(results[a][1][n] - results[b][1][n]), initial=0.0)) for n in model.out_names), default=0.0)
@@ -785,9 +823,40 @@ def case_acceleration(p, ctx):
                           f"{results[a][0]} and {results[b][0]} differ by {diff:.3e} > {results[a][2] + results[b][2]:.3e}")
 
 
-ORACLES = {"mda": case_mda, "acceleration": case_acceleration}
+# --------------------------------------------------------------------------- tail drive
+@st.composite
+def tail_cases(draw):
+    system = draw(coupled_systems(tail=True))
+    return {"system": system, "values": draw(input_values(system)), "tol": draw(st.sampled_from([1e-6, 1e-10])),
+            "perm": draw(st.permutations(list(range(5)))), "last": draw(st.sampled_from(["MDAJacobi", "MDAGaussSeidel"]))}
+
+
+def case_tail(p, ctx):
+    """A ring of two followed by a chain of 2-3 weakly coupled disciplines: MDAJacobi (whose residual has to cover the
+    couplings between the weakly coupled disciplines, several sweeps late) with three accelerations, and a hand-off sequence."""
+    with warnings.catch_warnings():
+        warnings.simplefilter("ignore")
+        model = CoupledSystem(p["system"])
+        values = {k: np.array(v, dtype=float) for k, v in p["values"].items()}
+        x = {n: values[n] for n in model.x_names}
+        sol = model.solve(x)
+        e0 = max((float(np.max(np.abs(values[n] - sol[n]))) for n in model.couplings()), default=0.0)
+        order = [i for i in p["perm"] if i < len(model.outputs_of)]
+        for acc in ("NoTransformation", "Alternate2Delta", "MinimumPolynomial"):
+            cfg = {"kind": "solver", "tol": p["tol"], "scaling": "no_scaling", "warm": False, "twice": False, "perm": p["perm"],
+                   "budget": BUDGET, "solver": _plain("MDAJacobi", acc)}
+            discs = build_disciplines(model, p["values"], "SimpleGrammar", reject_non_finite=True)
+            mda = build_mda(cfg, [discs[i] for i in order])
+            ctx.cls("tail_drive:MDAJacobi/" + acc)
+            if execute_and_check(ctx, mda, model, cfg, x, sol, e0, "tail MDAJacobi/" + acc) is not None and iterations_of(mda) >= 2:
+                ctx.nontriv(("tail", p["system"], p["values"], p["tol"], acc, order))
+        run_handoff(ctx, model, p["values"], x, sol, e0, p["tol"], p["last"], order)
+
+
+ORACLES = {"mda": case_mda, "acceleration": case_acceleration, "tail": case_tail}
 
 
 def run(ctx):
     ctx.drive("mda", cases(), case_mda, quick=450, thorough=2500)
     ctx.drive("acceleration", acceleration_cases(), case_acceleration, quick=110, thorough=600)
+    ctx.drive("tail", tail_cases(), case_tail, quick=60, thorough=400)
